@@ -1011,7 +1011,22 @@ def contracts(reg):
     return out
 
 
-EXTRA = [_site_runner(i) for i in range(len(SITES))] + [image_sites]
+def sniffers_agree(repo, tier):
+    """(b) the three OOXML copies of the sniffer agree on every input (relational, contracts/c14_agree.py)."""
+    from pyvc.contracts import Registry
+    from pyvc.exctypes import Universe
+    from contracts import c14_agree as AG
+    reg = Registry()
+    for c in contracts(reg):
+        reg.add(c)
+    uni = Universe(repo)
+    obls = []
+    for (ra, rb, label) in ((DOCX, PPTX, "docx-pptx"), (DOCX, XLSX, "docx-xlsx")):
+        obls.extend(AG.agree(repo, ra, rb, "_get_image_pixel_dimensions", label, reg, uni, C14Executor))
+    return {"obligations": obls, "functions": []}
+
+
+EXTRA = [_site_runner(i) for i in range(len(SITES))] + [image_sites, sniffers_agree]
 
 
 def lemmas():
@@ -1036,13 +1051,20 @@ def lemmas():
     return out
 
 
-TRUSTED = ["zipfile member reads (ZipFile.read returns the stored member)", "pypdf image decoding", "mimetypes.guess_type (ODF content types)"]
+TRUSTED = ["zipfile member reads (ZipFile.read returns the stored member)", "pypdf image decoding (get_data of a DCT stream is the embedded file)",
+           "mimetypes.guess_type (ODF content types)", "io.BytesIO(x) holds exactly x",
+           "AST dataflow back end (contracts/c14_sites.py, c14_flow.py): numbering discipline => numbers 1..n in append order by the loop invariant "
+           "`counter == number of images appended`; only calls outside TOTAL_CALLS / proved-total repo functions are raise points",
+           "program slices (c14_flow.py): nearest dominating definition; a shape the slicer does not follow is UNDECIDED"]
 ASSUMED_MODELS = ["str.split('/') = SEGS, '/'.join = JOINS (uninterpreted; replay validates the executable twin against CPython)",
                   "int.from_bytes / struct.unpack on (clamped) slices", "bytes.startswith / == on byte strings"]
 ASSUMPTIONS = ["JPEG: a stream that leaves the T.81 marker chain before a frame header (non-FF byte at a marker position, standalone marker, "
                "EOI/SOS first, truncated frame header) declares no size in the sense of the statement: result unconstrained there",
                "BMP: signed little-endian width / height at 18 / 22 as in the property's format clause (BITMAPINFOHEADER family)"]
-BOUNDED = []
+BOUNDED = ["each recorded finding: behaviour OUTSIDE its exclusion is checked by a native sweep of 12 generated documents (replay/C14.py::exclusion_sweep), not proved",
+           "refutations: every solver model is re-validated natively (grid of 8 base dirs x 15 targets for resolvers; generated PNG/GIF/BMP/JPEG files incl. fill "
+           "bytes, 1-3 leading segments and 6000 random marker sequences for the sniffers; <= 3 elements x <= 2 images for the data_types views)",
+           "content-type obligations are syntactic (lookup of the lower-cased extension in the literal table); str.lower / mimetypes are not modelled"]
 
 
 def known_findings(kf, violations, repo, tier):
